@@ -206,3 +206,22 @@ func Range[M ~map[K]V, K comparable, V any](m M) iter.Seq2[K, V] {
 		}
 	}
 }
+
+// OrderAny returns the visiting order (indices into keys) for a snapshot of dynamically typed keys:
+// canonical sort, then a permutation from the running task's stream. Used by ssync.Map.Range.
+func OrderAny(keys []any) []int {
+	sk := make([]sortKey, len(keys))
+	idx := make([]int, len(keys))
+	for i, k := range keys {
+		sk[i] = keyOf(k)
+		idx[i] = i
+	}
+	sort.SliceStable(idx, func(a, b int) bool { return sk[idx[a]].less(sk[idx[b]]) })
+	if r := orderStream(); r != nil {
+		for i := len(idx) - 1; i > 0; i-- {
+			j := r.Intn(i + 1)
+			idx[i], idx[j] = idx[j], idx[i]
+		}
+	}
+	return idx
+}
